@@ -8,6 +8,7 @@ import (
 	"go/token"
 	"go/types"
 	"sort"
+	"strconv"
 	"strings"
 
 	"golang.org/x/tools/go/ssa"
@@ -25,7 +26,7 @@ func checkC20(c *Ctx) {
 	c.Rule("C20/R1", "upload typestate: creating the upload registers, before any return, a deferred abort that fires iff the upload variable is non-nil; the variable is cleared only on the nil-error edge of Commit; the upload loop ends normally only on err == io.EOF exactly")
 	c.Rule("C20/R2", "writer pairing: after a successful NewWriter a deferred closure closes with the function's named error when it is non-nil and otherwise assigns Close's error to it; it is registered before any further return")
 	c.Rule("C20/R3", "no error is dropped on the upload path (storage/app, storage/db, storage/fs/local) except by the reviewed clean-up calls; in the upload functions a non-nil error from a progress call returns a non-nil error")
-	c.Rule("C20/R4", "methods of db.Upload execute SQL only through the upload's own transaction, and commit it only on paths where every earlier write of that method (flush, Exec) is known to have returned nil")
+	c.Rule("C20/R4", "methods of db.Upload execute SQL only through the upload's own transaction, and every transaction in storage/db (the upload's, and the one that allocates the upload ID) is committed only on paths where every earlier write of that function (flush, Exec) is known to have returned nil")
 	c.Rule("C20/R5", "ID allocation: latest-ID read and insert run in one transaction whose Commit error is checked and whose rollback is deferred; the records use a separate, later transaction; the ID parser's offset matches the formatter's separator")
 	c.Rule("C20/R6", "protocol tables: the form fields the client writes for files and commit are accepted by the server; the field it writes for abort is rejected; every part named \"file\" reaches the call that stores and indexes it (no path on which the form name can be \"file\" returns to the head of the part loop without it)")
 	c.Rule("C20/R7", "every in-repo fs.Writer.CloseWithError discards: it never publishes the file and, where the file already exists on disk, removes it")
@@ -990,9 +991,6 @@ func c20Tx(c *Ctx, p *Prog) {
 	// of that method on the upload or its transaction/statements returned nil
 	nc := 0
 	for _, fn := range p.Funcs("storage/db") {
-		if fn.Signature.Recv() == nil || recvName(fn.Signature.Recv().Type()) != "Upload" {
-			continue
-		}
 		var commits, writes []*ssa.Call
 		eachInstr(fn, func(_ *ssa.BasicBlock, in ssa.Instruction) {
 			call, ok := in.(*ssa.Call)
@@ -1052,7 +1050,7 @@ func c20Tx(c *Ctx, p *Prog) {
 			}
 		}
 	}
-	c.Floor(R, "writes preceding a commit in db.Upload methods", nc, 1)
+	c.Floor(R, "writes preceding a commit in storage/db", nc, 2)
 }
 
 // reachesInstr: b can execute after a (a's block reaches b's block, or both are in one block with a first).
@@ -1371,6 +1369,7 @@ func c20Protocol(c *Ctx, p *Prog) {
 			continue
 		}
 		nLoops++
+		c20FreshMeta(c, p, R, fn, lp)
 		facts := constFacts(fn, func(v ssa.Value) bool { return v == formName })
 		mayBeFile := func(b *ssa.BasicBlock) bool {
 			st := facts[b]
@@ -1569,4 +1568,94 @@ func inAnyLoop(fn *ssa.Function, b *ssa.BasicBlock) bool {
 		}
 	}
 	return false
+}
+
+// c20FreshMeta: the server's per-file labels belong to one file. A map handed to a call inside the loop over the parts is
+// either made in that iteration, or — when it outlives the iteration — every key the loop sets in it is set on every
+// path to the call (or deleted somewhere in the loop): a key set only under a condition would otherwise stick to the
+// following files.
+func c20FreshMeta(c *Ctx, p *Prog, R string, fn *ssa.Function, lp *loopInfo) {
+	n := 0
+	for b := range lp.Blocks {
+		for _, in := range b.Instrs {
+			call, ok := in.(*ssa.Call)
+			if !ok {
+				continue
+			}
+			if sc := call.Call.StaticCallee(); sc == nil || sc.Pkg != fn.Pkg {
+				continue
+			}
+			for _, a := range call.Call.Args {
+				if _, isMap := a.Type().Underlying().(*types.Map); !isMap {
+					continue
+				}
+				n++
+				key := fmt.Sprintf("%s:labels-per-file#%d", fnName(fn), n)
+				mm, isMake := a.(*ssa.MakeMap)
+				if isMake && lp.Blocks[mm.Block()] {
+					c.OK(R, key, p.pos(call.Pos()), "the label map handed on is made afresh for each part")
+					continue
+				}
+				sticky := ""
+				for b2 := range lp.Blocks {
+					for _, in2 := range b2.Instrs {
+						mu, ok := in2.(*ssa.MapUpdate)
+						if !ok || mu.Map != a {
+							continue
+						}
+						k, isK := constString(mu.Key)
+						if b2 == call.Block() || b2.Dominates(call.Block()) {
+							continue
+						}
+						// deleted somewhere in the loop?
+						deleted := false
+						for b3 := range lp.Blocks {
+							for _, in3 := range b3.Instrs {
+								if dc, ok := in3.(*ssa.Call); ok {
+									if bi, ok := dc.Call.Value.(*ssa.Builtin); ok && bi.Name() == "delete" && dc.Call.Args[0] == a {
+										if k2, ok := constString(dc.Call.Args[1]); ok && isK && k2 == k {
+											deleted = true
+										}
+									}
+								}
+							}
+						}
+						if !deleted {
+							sticky = k
+							if !isK {
+								sticky = "a computed key"
+							}
+						}
+					}
+				}
+				c.Check(sticky == "", R, key, p.pos(call.Pos()), "the label map outlives the iteration but every key set in the loop is set on every path to the call", "the label map handed on with each part is shared by all parts, and the key "+strconv.Quote(sticky)+" is set in it only under a condition: once set for one file it is still there for the next, so an unnamed file is stored and indexed under the previous file's name")
+			}
+		}
+	}
+	c.Floor(R, "label maps handed on inside the part loop", n, 1)
+}
+
+// c20FreshMetaAll applies c20FreshMeta to every loop over multipart parts in storage/app (used by C19 for the labels the
+// server adds to each file's records).
+func c20FreshMetaAll(c *Ctx, p *Prog, R string) {
+	for _, fn := range p.Funcs("storage/app") {
+		var formName *ssa.Call
+		eachInstr(fn, func(_ *ssa.BasicBlock, in ssa.Instruction) {
+			if call, ok := in.(*ssa.Call); ok && objIs(calleeObj(&call.Call), "mime/multipart", "Part", "FormName") {
+				formName = call
+			}
+		})
+		if formName == nil {
+			continue
+		}
+		var lp *loopInfo
+		for _, l := range naturalLoops(fn) {
+			if l.Blocks[formName.Block()] && (lp == nil || len(l.Blocks) < len(lp.Blocks)) {
+				lp = l
+			}
+		}
+		if lp != nil {
+			c20FreshMeta(c, p, R, fn, lp)
+		}
+	}
 }
